@@ -386,20 +386,20 @@ class SubCtx:
     """forwards the archive rules of C04 into this property's report under rule R4"""
 
     def __init__(self, ctx, rule, prefix="leader archive: "):
-        self.ctx, self.rule, self.prefix = ctx, rule, prefix
+        self.ctx, self.rid, self.prefix = ctx, rule, prefix
         self.extra = ctx.extra
 
     def _k(self, rule, key):
         return "archive-%s-%s" % (rule, key or "")
 
     def holds(self, rule, construct, where="", detail="", key=""):
-        self.ctx.holds(self.rule, construct, where, detail, self._k(rule, key))
+        self.ctx.holds(self.rid, construct, where, detail, self._k(rule, key))
 
     def violated(self, rule, construct, where="", detail="", key="", facts=None):
-        self.ctx.violated(self.rule, construct, where, self.prefix + detail, self._k(rule, key), facts)
+        self.ctx.violated(self.rid, construct, where, self.prefix + detail, self._k(rule, key), facts)
 
     def inconclusive(self, rule, construct, where="", detail="", key=""):
-        self.ctx.inconclusive(self.rule, construct, where, detail, self._k(rule, key))
+        self.ctx.inconclusive(self.rid, construct, where, detail, self._k(rule, key))
 
     def check(self, ok, rule, construct, where="", detail="", key="", facts=None):
         return (self.holds if ok else self.violated)(rule, construct, where, detail, key)
@@ -417,6 +417,29 @@ class SubCtx:
 
     def sample(self, s):
         pass
+
+    # a whole rule family of another property run under one rule of this one: its own rule table, axioms and
+    # assumptions are documented where it is at home
+    def rule(self, *a, **k):
+        pass
+
+    def axiom(self, *a, **k):
+        pass
+
+    def assume(self, *a, **k):
+        pass
+
+    @property
+    def repo(self):
+        return self.ctx.repo
+
+    @property
+    def tier(self):
+        return self.ctx.tier
+
+    @property
+    def examined(self):
+        return self.ctx.examined
 
 
 def run(ctx):
